@@ -21,28 +21,52 @@ THEOREMS = [
     "C20_final_state_is_spec_of_serial_order",
     "C20_no_write_inside_open_edit",
     "C20_unlocked_set_state_loses_update",
+    "C20_source_shape_scoped_lock",
+    "C20_serialisable_under_cancellation_general",
+    "C20_aborted_block_effect",
+    "C20_serialisable_under_cancellation",
+    "C20_no_write_inside_open_edit_with_cancel",
+    "C20_cancelled_waiter_releasing_lock_loses_update",
 ]
 EXPLANATION = (
     "Lean transition system over the shared state-store model (WfModel/StateStore.lean, section C20): any number of tasks, each "
     "one set / set_state / clear / edit_state on one store; `run t` executes the next await-free section of task t (lock fast "
     "path or FIFO enqueue, resume of the queue head when the lock is free, each chunk of an edit_state body between two awaits, "
-    "the last one together with save+release); which operations take the lock is regenerated from the source. Theorems, by "
-    "induction over arbitrary schedules with the invariant `store = serial fold of the completion log, plus: finishing the "
-    "holder's remaining chunks yields its sequential edit applied to that fold`: every complete interleaving ends in the store "
-    "of some permutation of the operations run serially (both backends, generic proof + per-backend edit law), that serial run "
-    "is the C19 sequential machine and therefore the nested-dict spec; no step of another task writes while a block is open; "
-    "and the pre-repair SQLite discipline (set_state/clear unlocked) provably loses an update on a 3-action schedule. Tie: lock "
-    "flags from source (C20_source_shape breaks when a writer leaves the lock); real InMemoryStateStore and SqliteStateStore "
-    "are driven by real asyncio Tasks under a scripted scheduler, one await-free section per action, over all interleavings of "
-    "2-3 operations (seeded random schedules for 4-5), and after every action store content, lock holder, waiter FIFO and "
-    "per-task position are diffed against the model driver. Monitors (model-independent): final state is one of the serial "
-    "outcomes computed on the real store, both backends reach the same set of final states, snapshots taken mid-schedule keep "
-    "their top-level mapping, no task is left stuck."
+    "the last one together with save+release); `cancel t` is Task.cancel() from outside, turned into a CancelledError by the "
+    "task's next section: before it started, while queued on the lock (waiter future cancelled, or lock already handed over and "
+    "only _must_cancel set: it leaves the FIFO, a free lock goes to the next waiter, undelivered cancelled waiters do not block "
+    "the acquire fast path), or at an await inside an edit_state body (lock released, nothing saved; the finished chunks stay in "
+    "memory where the body mutates self._state itself, vanish on SQLite where it mutates a deserialised copy). Which operations "
+    "take the lock, and that the lock is only ever used as `async with self._lock`, is regenerated from the source. Theorems, by "
+    "induction over arbitrary schedules with the invariant `store = serial fold of the log of the tasks that took effect, plus: "
+    "finishing the holder's remaining chunks yields its sequential edit applied to that fold, and leaving the block now yields "
+    "the edit of what it keeps`: every interleaving after which all tasks have ended (completed / cancelled / aborted inside the "
+    "body) ends in the store of the serial run, in some order, of exactly the tasks that took effect (both backends, generic proof "
+    "+ per-backend edit/publish/abort laws); without cancellations that is a permutation of all tasks, and the serial run is the "
+    "C19 sequential machine and therefore the nested-dict spec; no section of another task and no cancellation request to it "
+    "writes or takes the lock away while a block is open; the pre-repair SQLite discipline (set_state/clear unlocked) and a lock "
+    "that a cancelled waiter gives back (explicit acquire/finally-release) provably lose an update on 3- and 6-action schedules. "
+    "Tie: lock flags from source (C20_source_shape, C20_source_shape_scoped_lock break when a writer leaves the lock or the lock "
+    "is used other than through `async with`); real InMemoryStateStore and SqliteStateStore are driven by real asyncio Tasks "
+    "under a scripted scheduler, one await-free section or one Task.cancel() per action, over all interleavings of 2-3 "
+    "operations with 0-2 cancellable tasks (seeded random schedules for 4-5 and beyond the cap), and after every action store "
+    "content, lock holder, waiter FIFO, per-task position (incl. pending cancellation: Ic / Wc / Wm / Bkc, ended: D / X / A) and "
+    "log are diffed against the model driver. Monitors (model-independent): final state is one of the serial outcomes, computed "
+    "on the real store, of the operations that took effect; both backends reach the same set of final states; snapshots taken "
+    "mid-schedule keep their top-level mapping; no task is left stuck (a cancelled waiter must not block the lock)."
 )
 LEVEL_TEXT = "proof (Lean 4) of the model + per-action correspondence with both real stores under a scripted scheduler + direct monitors"
 ASSUMPTIONS = [
-    "asyncio.Lock of CPython 3.12 (fast path only when unlocked and no live waiter, FIFO wake-up) and Task stepping are "
-    "modelled as holder + FIFO queue; they are exercised on every run, not verified; cancellation of store operations is not modelled",
+    "asyncio.Lock of CPython 3.12 (fast path only when unlocked and no live waiter, FIFO wake-up, cancelled waiter removes "
+    "itself and wakes the next one when the lock is free) and Task stepping / Task.cancel() (future cancelled, or _must_cancel "
+    "when the future already has its result) are modelled as holder + FIFO queue + per-task position; they are exercised on "
+    "every run, not verified",
+    "cancellation is a request from outside the tasks (step timeout, run cancellation), at most one per task, delivered at the "
+    "task's next suspension point; asyncio.shield / Task.uncancel, cancellation of readers, and a CancelledError raised at a "
+    "point other than the lock acquisition or an await of the edit_state body are not modelled (the store methods have no other "
+    "await)",
+    "a task cancelled inside its edit_state body counts in the serial order with what it left in the store: the finished chunks "
+    "in memory (the body mutates the live object; the property does not ask cancelled blocks to be atomic), nothing on SQLite",
     "store methods contain no await other than the lock acquisition and the user's awaits inside an edit_state body (true of "
     "both stores: the SQLite store does blocking sqlite3 calls inside coroutines); the per-action correspondence would expose "
     "an additional suspension point as an extra section",
@@ -54,7 +78,7 @@ ASSUMPTIONS = [
 ]
 TRUSTED_EXTRA = [
     "harness/sloop.py: scripted scheduler over asyncio.BaseEventLoop (CPython private attributes _ready, Handle._run, "
-    "Task._fut_waiter, Lock._locked, Lock._waiters)",
+    "Task._fut_waiter, Task._must_cancel, Lock._locked, Lock._waiters)",
     "harness/ss_common.py, harness/ss_models.py, harness/gen/statestore.py (shared with C19)",
 ]
 
@@ -82,6 +106,8 @@ class ConcRun:
         self.inbody = [False] * n
         self.chunk = [0] * n
         self.errors: list[str | None] = [None] * n
+        self.creq = [False] * n                    # Task.cancel() has been called on the task
+        self.ended: list[str | None] = [None] * n  # "A": CancelledError left an open edit body, "X": elsewhere
         self.log: list[int] = []
         self.snaps: list[tuple[Any, dict, int]] = []
         self.tasks = [self.loop.create_task(self._task(i, op)) for i, op in enumerate(self.tasks_spec)]
@@ -111,6 +137,10 @@ class ConcRun:
                         self.chunk[i] = j + 1
             else:
                 raise RuntimeError(f"unknown op {op!r}")
+        except asyncio.CancelledError:
+            # the store's own `async with` / context manager exits have run by now
+            self.ended[i] = "A" if self.inbody[i] else "X"
+            raise
         except Exception as e:  # noqa: BLE001
             self.errors[i] = type(e).__name__
         finally:
@@ -119,13 +149,33 @@ class ConcRun:
     def enabled(self) -> list[int]:
         return [i for i, t in enumerate(self.tasks) if not t.done() and self.loop.has_ready(t)]
 
+    def can_cancel(self, i: int) -> bool:
+        return not self.tasks[i].done() and not self.creq[i]
+
+    def cancel(self, i: int) -> None:
+        """`Task.cancel()` from outside (step timeout, run cancellation): a request only; the task sees the
+        CancelledError in its next section"""
+        self.tasks[i].cancel()
+        self.creq[i] = True
+        self.steps += 1
+
+    def status(self, i: int) -> str:
+        """D completed (also: raised), X cancelled before it touched the store, A cancelled inside its edit body,
+        - unfinished"""
+        t = self.tasks[i]
+        if not t.done():
+            return "-"
+        if t.cancelled():
+            return "A" if self.ended[i] == "A" else "X"
+        return "D"
+
     def all_done(self) -> bool:
         return all(t.done() for t in self.tasks)
 
     def step(self, i: int) -> None:
         self.loop.run_one(self.tasks[i])
         self.steps += 1
-        if self.tasks[i].done() and i not in self.log:
+        if self.status(i) in ("D", "A") and i not in self.log:
             self.log.append(i)
 
     # ---- observation
@@ -165,14 +215,17 @@ class ConcRun:
             holder = str(inb[0]) if len(inb) == 1 else "?"
         pcs = []
         for i, t in enumerate(self.tasks):
+            c = "c" if self.creq[i] else ""
             if t.done():
-                pcs.append("D")
+                pcs.append(self.status(i))
             elif not self.started[i]:
-                pcs.append("I")
+                pcs.append("I" + c)
             elif self.inbody[i]:
-                pcs.append(f"B{self.chunk[i]}")
+                pcs.append(f"B{self.chunk[i]}" + c)
             elif any(getattr(t, "_fut_waiter", None) is f for f in waiters):
-                pcs.append("W")
+                if c:  # future cancelled, or already resolved (lock handed over) and the task marked instead
+                    c = "c" if t._fut_waiter.cancelled() else ("m" if getattr(t, "_must_cancel", False) else "?")
+                pcs.append("W" + c)
             else:
                 pcs.append("?")
         return (f"ok {self.store_canon()} holder={holder} queue={','.join(q)} pcs={','.join(pcs)} "
@@ -216,19 +269,41 @@ def driver_prefix(S: Any, backend: str, sc: dict) -> list[str]:
     return [f"cinit|{backend}|{sc['kind']}|{S.schema_enc()}|{ini}"] + [S.cop_line(op) for op in sc["tasks"]]
 
 
-def serial_outcomes(S: Any, sqlenv: Any, backend: str, sc: dict) -> dict[str, list[int]]:
-    """final state of every serial order, on the real store"""
+def serial_outcomes(S: Any, sqlenv: Any, backend: str, sc: dict, eff: dict[int, list] | None = None) -> dict[str, list[int]]:
+    """final state of every serial order, on the real store; `eff`: the tasks that count and the operation each
+    counts with (default: all tasks, their own operation)"""
     res: dict[str, list[int]] = {}
-    n = len(sc["tasks"])
-    for order in itertools.permutations(range(n)):
+    if eff is None:
+        eff = dict(enumerate(sc["tasks"]))
+    for order in itertools.permutations(sorted(eff)):
         store = S.make_mem(sc["kind"]) if backend == "mem" else sqlenv.store(sc["kind"])
         if sc.get("init") is not None:
             S.drive(store.set_state(S.make_instance(sc["kind"], "same", sc["init"])))
         real = S.Real(store, sc["kind"])
         for t in order:
-            real.do(S.cop_to_op(sc["tasks"][t]))
+            real.do(S.cop_to_op(eff[t]))
         res.setdefault(safe_final(S, store), list(order))
     return res
+
+
+def act_line(a: int) -> str:
+    """schedule entry -> driver op: t >= 0 runs the next section of task t, -(t+1) is Task.cancel() on task t"""
+    return f"crun|{a}" if a >= 0 else f"ccancel|{-a - 1}"
+
+
+def line_act(line: str) -> int | None:
+    f = line.split("|")
+    if len(f) != 2 or not f[1].isdigit():
+        return None
+    if f[0] == "crun":
+        return int(f[1])
+    if f[0] == "ccancel":
+        return -int(f[1]) - 1
+    return None
+
+
+def fmt_sched(sched: list[int]) -> str:
+    return "[" + ", ".join(str(a) if a >= 0 else f"cancel({-a - 1})" for a in sched) + "]"
 
 
 def safe_final(S: Any, store: Any) -> str:
@@ -258,8 +333,11 @@ class Explorer:
         self.impl: list[str] = []        # what the implementation showed, aligned with self.lines
         self.finals: dict[str, list[int]] = {}
         self.viol: list[Violation] = []
-        self.serial: dict[str, list[int]] | None = None
+        self.serial: dict[str, dict[str, list[int]]] = {}  # per set of operations that count
         self.n_sched = 0
+        self.sampled = False  # schedules drawn at random on top of the depth-first ones
+        n = len(sc["tasks"])
+        self.cancellable = [t for t in sc.get("cancel") or [] if isinstance(t, int) and 0 <= t < n]
         self.raises = scenario_raises(sc)
 
     def _flag(self, sig: str, what: str, schedule: list[int]) -> None:
@@ -270,8 +348,23 @@ class Explorer:
         case["backend"] = self.backend
         self.viol.append(Violation(sig, what, case))
 
+    def effective(self, run: ConcRun) -> dict[int, list]:
+        """which tasks count in the serial order, and with what: completed tasks with their operation; a task
+        cancelled inside its open edit body with the chunks it had finished where the body works on the store's own
+        object (in-memory: `state = self._state`), with nothing where it works on a copy that is never saved (SQLite);
+        tasks cancelled before they got the lock with nothing"""
+        eff: dict[int, list] = {}
+        for i, op in enumerate(self.sc["tasks"]):
+            st = run.status(i)
+            if st == "D":
+                eff[i] = op
+            elif st == "A" and self.backend == "mem":
+                eff[i] = ["edit", [list(ch) for ch in (op[1] or [[]])[:run.chunk[i]]]]
+        return eff
+
     def run_schedule(self, chooser: Any) -> list[int]:
-        """one complete run; `chooser(depth, enabled) -> task` picks the next action"""
+        """one complete run; `chooser(depth, actions) -> action` picks the next action (t: next section of task t,
+        -(t+1): cancel task t)"""
         S = self.S
         run = ConcRun(S, self.sqlenv, self.backend, self.sc)
         pre = driver_prefix(S, self.backend, self.sc)
@@ -284,35 +377,51 @@ class Explorer:
                 en = run.enabled()
                 if not en:
                     break
-                t = chooser(depth, en)
+                acts = en + [-(t + 1) for t in self.cancellable if run.can_cancel(t)]
+                a = chooser(depth, acts)
                 if self.snapshots and depth > 0:
                     run.take_snapshot()
-                run.step(t)
-                sched.append(t)
-                self.lines.append(f"crun|{t}")
-                self.impl.append(run.observe())
+                if a >= 0:
+                    run.step(a)
+                else:
+                    run.cancel(-a - 1)
+                sched.append(a)
+                self.lines.append(act_line(a))
+                obs = run.observe()
+                self.impl.append(obs)
+                if a < 0:
+                    pc = obs.split(" pcs=")[1].split(" ")[0].split(",")[-a - 1]
+                    self.out.count("cancel_at:" + ("B" if pc.startswith("B") else "I" if pc.startswith("I") else pc))
                 depth += 1
                 if depth > 200:
                     break
             self.n_sched += 1
             self.out.evaluations += len(sched)
             cls = "dict" if self.sc["kind"] == "dict" else "typed"
+            after = "_after_cancel" if any(a < 0 for a in sched) else ""
             if not run.all_done():
-                self._flag(f"C20/stuck:{self.backend}:{op_kinds(self.sc)}",
+                self._flag(f"C20/stuck{after}:{self.backend}:{op_kinds(self.sc)}",
                            f"no task can run but tasks {[i for i, t in enumerate(run.tasks) if not t.done()]} are unfinished "
-                           f"after schedule {sched}", sched)
+                           f"after schedule {fmt_sched(sched)} (tasks {self.sc['tasks']!r})", sched)
                 return sched
             final = run.final_canon()
             self.finals.setdefault(final, sched)
-            if self.serial is None:
-                self.serial = serial_outcomes(S, self.sqlenv, self.backend, self.sc)
-            if final not in self.serial:
-                self._flag(f"C20/no_serial_order:{self.backend}:{op_kinds(self.sc)}",
-                           f"{self.backend} store, tasks {self.sc['tasks']!r}, init {self.sc.get('init')!r}: schedule {sched} ends in "
-                           f"{final!r}; the serial orders give {sorted(self.serial)!r}", sched)
+            eff = self.effective(run)
+            key = json.dumps(sorted(eff.items()), sort_keys=True, default=str)
+            if key not in self.serial:
+                self.serial[key] = serial_outcomes(S, self.sqlenv, self.backend, self.sc, eff)
+            serial = self.serial[key]
+            if after:
+                self.out.count("cancelled_runs:completed=%d/%d" % (sum(run.status(i) == "D" for i in range(len(run.tasks))), len(run.tasks)))
+            if final not in serial:
+                counted = {i: (run.status(i), eff.get(i)) for i in range(len(run.tasks))}
+                self._flag(f"C20/no_serial_order{after}:{self.backend}:{op_kinds(self.sc)}",
+                           f"{self.backend} store, tasks {self.sc['tasks']!r}, init {self.sc.get('init')!r}: schedule "
+                           f"{fmt_sched(sched)} ends in {final!r}; the serial orders of the operations that took effect "
+                           f"{counted!r} give {sorted(serial)!r}", sched)
             dmg = run.snapshot_damage()
             if dmg is not None:
-                self._flag(f"C20/snapshot_changed:{self.backend}:{cls}", f"{dmg} (schedule {sched}, tasks {self.sc['tasks']!r})", sched)
+                self._flag(f"C20/snapshot_changed:{self.backend}:{cls}", f"{dmg} (schedule {fmt_sched(sched)}, tasks {self.sc['tasks']!r})", sched)
         finally:
             run.close()
         return sched
@@ -351,6 +460,21 @@ class Explorer:
     def random(self, rng: Any, n: int) -> None:
         for _ in range(n):
             self.run_schedule(lambda depth, en: rng.choice(en))
+
+    def random_cancels(self, rng: Any, n: int) -> None:
+        """random schedules in which every cancellation falls at a uniformly chosen action index (a cancel
+        action is offered at every point, so a uniform choice among the offered actions would fire it early)"""
+        self.sampled = True
+        for _ in range(n):
+            when = {t: rng.randrange(0, 7) for t in self.cancellable}
+
+            def chooser(depth: int, acts: list[int]) -> int:
+                due = [a for a in acts if a < 0 and when[-a - 1] <= depth]
+                if due:
+                    return due[0]
+                return rng.choice([a for a in acts if a >= 0])
+
+            self.run_schedule(chooser)
 
 
 # --------------------------------------------------------------------------
@@ -400,7 +524,7 @@ def gen_task(S: Any, rng: Any, kind: str) -> list:
     return ["clear"]
 
 
-def gen_scenario(S: Any, rng: Any, n_tasks: int) -> dict:
+def gen_scenario(S: Any, rng: Any, n_tasks: int, cancels: bool = False) -> dict:
     kind = rng.choice(S.KINDS)
     init = None if rng.random() < 0.25 else S.gen_state_data(rng, kind)
     if kind == "dict" and init is not None:
@@ -408,7 +532,12 @@ def gen_scenario(S: Any, rng: Any, n_tasks: int) -> dict:
     tasks = [gen_task(S, rng, kind) for _ in range(n_tasks)]
     if not any(t[0] == "edit" and len(t[1]) > 1 for t in tasks):
         tasks[0] = ["edit", [[["I", "x" if kind == "dict" else "cnt", 1]], [["I", "x" if kind == "dict" else "a", 2]]]]
-    return {"kind": kind, "init": init, "tasks": tasks}
+    sc = {"kind": kind, "init": init, "tasks": tasks}
+    if cancels:
+        # 1-2 tasks that the scheduler may cancel at any point (not started / queued on the lock / inside the body)
+        k = 1 if n_tasks < 3 or rng.random() < 0.6 else 2
+        sc["cancel"] = sorted(rng.sample(range(n_tasks), k))
+    return sc
 
 
 # --------------------------------------------------------------------------
@@ -418,9 +547,10 @@ def run(env: Env) -> Outcome:
     from .. import ss_common as S
 
     out = Outcome()
-    out.rule = ("per action: driver(Sys mem/sql) == observed (store content, lock holder, waiter FIFO, task positions, completion "
-                "log); monitors: final state of every interleaving is a serial outcome of the real store, both backends reach "
-                "the same set of final states, mid-run snapshots keep their top level, nothing is stuck")
+    out.rule = ("per action (section of a task / Task.cancel()): driver(Sys mem/sql) == observed (store content, lock holder, waiter "
+                "FIFO, task positions incl. pending cancellations, log); monitors: final state of every interleaving is a serial "
+                "outcome, on the real store, of the operations that took effect (all of them without cancellation); both backends "
+                "reach the same set of final states; mid-run snapshots keep their top level; nothing is stuck")
     sqlenv = S.SqlEnv()
     explorers: list[tuple[str, Explorer]] = []
     try:
@@ -448,6 +578,13 @@ def run(env: Env) -> Outcome:
             scenarios.append(("gen3", gen_scenario(S, env.rng, 3), "exhaustive"))
         for _ in range(nbig):
             scenarios.append(("gen45", gen_scenario(S, env.rng, env.rng.choice([4, 5])), "random"))
+        # the same with cancellations: 1-2 designated tasks may be cancelled at every point of every interleaving
+        for _ in range(env.budget(3, 30)):
+            scenarios.append(("gen2c", gen_scenario(S, env.rng, 2, cancels=True), "exhaustive"))
+        for _ in range(env.budget(4, 40)):
+            scenarios.append(("gen3c", gen_scenario(S, env.rng, 3, cancels=True), "exhaustive"))
+        for _ in range(env.budget(1, 15)):
+            scenarios.append(("gen45c", gen_scenario(S, env.rng, env.rng.choice([4, 5]), cancels=True), "random"))
         cap = 60 if env.tier == "quick" else 400
 
         for tag, sc, mode in scenarios:
@@ -458,8 +595,12 @@ def run(env: Env) -> Outcome:
                 if mode == "fixed":
                     ex.fixed(sc["schedule"])
                 elif mode == "exhaustive":
-                    complete = ex.exhaustive(cap)
+                    complete = ex.exhaustive(cap if not ex.cancellable else (2 if env.tier == "quick" else 3) * cap)
                     out.count("exhaustive_complete" if complete else "exhaustive_capped")
+                    if not complete and ex.cancellable:  # the depth-first order reaches only late cancellations before the cap
+                        ex.random_cancels(env.rng, 20 if env.tier == "quick" else 80)
+                elif ex.cancellable:
+                    ex.random_cancels(env.rng, 12 if env.tier == "quick" else 40)
                 else:
                     ex.random(env.rng, 12 if env.tier == "quick" else 40)
                 per_backend[be] = ex
@@ -471,9 +612,15 @@ def run(env: Env) -> Outcome:
             out.count("kind:" + sc["kind"])
             for op in sc["tasks"]:
                 out.count("task:" + op[0])
+            for t in (sc.get("cancel") or []) if mode != "fixed" else []:
+                out.count("cancellable:" + sc["tasks"][t][0])
             out.nontrivial((sc["kind"], sc["tasks"], sc.get("init")))
-            if mode == "exhaustive" and len(per_backend) == 2 and not per_backend["mem"].raises \
-                    and not any(ex.viol for ex in per_backend.values()):
+            # (a multi-chunk edit cancelled inside its body leaves its finished chunks in memory, nothing in SQLite)
+            abortable = any(sc["tasks"][t][0] == "edit" and len(sc["tasks"][t][1]) > 1 for t in per_backend["mem"].cancellable) \
+                if "mem" in per_backend else False
+            if mode == "exhaustive" and len(per_backend) == 2 and not per_backend["mem"].raises and not abortable \
+                    and not any(ex.viol for ex in per_backend.values()) \
+                    and not any(ex.sampled for ex in per_backend.values()):
                 a, b = per_backend["mem"].finals, per_backend["sql"].finals
                 if set(a) != set(b):
                     only = sorted(set(a) ^ set(b))[0]
@@ -497,18 +644,31 @@ def run(env: Env) -> Outcome:
             lines += ex.lines
             impl += ex.impl
             owner += [idx] * len(ex.lines)
+        # malformed and out-of-range actions: the driver answers them, it does not guess (a finished or already
+        # cancelled task cannot be cancelled again: Task.cancel() returns False / changes nothing)
+        extra = [(f"cinit|mem|dict|{S.schema_enc()}|-", "ok"), ("ctask|clear", "ok"), ("ccancel|", "bad-op"), ("ccancel|x", "bad-op"),
+                 ("ccancel|0|1", "bad-op"), ("crun|-1", "bad-op"), ("ccancel|7", "disabled"), ("crun|7", "disabled"),
+                 ("ccancel|0", "ok state dict o0 holder=- queue= pcs=Ic log="), ("ccancel|0", "disabled"),
+                 ("crun|0", "ok state dict o0 holder=- queue= pcs=X log="), ("ccancel|0", "disabled"), ("crun|0", "disabled")]
+        lines += [l for l, _ in extra]
+        impl += [e for _, e in extra]
+        owner += [-1] * len(extra)
+        out.count("malformed_or_disabled_actions", len(extra) - 2)
         model_out = Driver(MODEL).run(lines) if lines else []
         seen_div = 0
         for i, (mo, io) in enumerate(zip(model_out, impl)):
-            if lines[i].startswith("crun|"):
+            if line_act(lines[i]) is not None:
                 out.disagreements_checked += 1
+            if mo != io and owner[i] < 0:
+                out.divergences.append(Divergence(f"{MODEL}/sys-malformed", i, lines[i], mo, io, None))
+                continue
             if mo != io:
                 tag, ex = explorers[owner[i]]
                 # the schedule this line belongs to: back to the preceding cinit
                 j = i
                 while j > 0 and not lines[j].startswith("cinit|"):
                     j -= 1
-                sched = [int(l.split("|")[1]) for l in lines[j:i + 1] if l.startswith("crun|")]
+                sched = [a for a in map(line_act, lines[j:i + 1]) if a is not None]
                 case = dict(ex.sc)
                 case["schedule"], case["backend"] = sched, ex.backend
                 out.divergences.append(Divergence(f"{MODEL}/sys-{ex.backend}", len(sched) - 1, lines[i], mo, io,
